@@ -23,6 +23,15 @@ def gen_program(rng, uni, tid, length):
     sn = uni.by_name['TRACE_STRING_NEWTHREAD'][0]
     se = uni.by_name['TRACE_STRING_EXEC'][0]
     pool = [rng.choice(uni.plain_decodable) for _ in range(rng.randint(1, 3))] + [rng.choice(uni.trace_codes)]
+    px = uni.by_name['TRACE_STRING_PROC_EXIT'][0]
+
+    def name():
+        # half of the names come from a tiny pool, so that equal names meet (a process exits under the name another thread
+        # learned for it)
+        if rng.random() < 0.5:
+            b = rng.choice([b'foo', b'bar']).ljust(32, b'\0')
+            return [int.from_bytes(b[8 * i:8 * i + 8], 'little') for i in range(4)]
+        return pc.pack_name(rng)
     prog = []
     while len(prog) < length:
         r = rng.random()
@@ -33,14 +42,20 @@ def gen_program(rng, uni, tid, length):
                 for _ in range(rng.randint(0, 2)):
                     c = rng.choice(pool)
                     prog.append([tid, c, rng.choice([1, 2]), pc.gen_words(rng, uni, c)])
-                prog.append([tid, sn, 0, pc.pack_name(rng)])
+                prog.append([tid, sn, 0, name()])
         elif r < 0.32:
             pid = rng.randint(1, 6)
             prog.append([tid, de, 0, [pid, 0, 0, 0]])
             if rng.random() < 0.85:
-                prog.append([tid, se, 0, pc.pack_name(rng)])
+                prog.append([tid, se, 0, name()])
         elif r < 0.4:
             prog.append([tid, rng.choice([sn, se]), 0, pc.pack_name(rng)])     # STRING without DATA
+        elif r < 0.48:
+            prog.append([tid, px, 0, name()])                                   # the process exits
+        elif r < 0.56 and 'PERF_THD_Data' in uni.by_name:
+            # sampler thread data, incl. the kernel's -1 sentinels for an unknown pid
+            prog.append([tid, uni.by_name['PERF_THD_Data'][0], 0,
+                         [rng.choice([5, 0xffffffff, 2 ** 64 - 1]), rng.choice([1000, 1001, tid]), 0x5000, 1]])
         else:
             c = rng.choice(pool)
             prog.append([tid, c, rng.choices([0, 1, 2, 3], weights=[1, 4, 4, 1])[0], pc.gen_words(rng, uni, c)])
@@ -112,6 +127,7 @@ def run(ctx, model_ok):
                                 'expected': {'window': exp[j]}, 'actual': {'window': r['outs'][j]},
                                 'why': 'per-thread traces of the merged stream differ from the solo run of that thread (many threads)'})
     solo = {}
+    solo_texts = {}
     cases = []
     for k, (h, r, m) in enumerate(zip(hs, res, meta)):
         s, kind, who, src, progs, tids = m
@@ -122,6 +138,8 @@ def run(ctx, model_ok):
             learn_by_tid.setdefault(t, []).append([p, n])
         if kind == 'solo':
             solo[(s, who)] = (pt[who], learn_by_tid.get(tids[who], []))
+            solo_texts[(s, who)] = [(src[k][1], r['texts'][k]) for k in range(len(h)) if r['texts'][k] is not None
+                                    and (uni.codes.get(h[k][1], '').startswith('BSC_') or uni.codes.get(h[k][1]) == 'PERF_THD_Data')]
         else:
             delivered_threads = sum(1 for i in range(len(progs)) if any(w is not None for _, w in pt[i]))
             if delivered_threads >= 2 and r['learn']:
@@ -130,6 +148,16 @@ def run(ctx, model_ok):
                 exp_out, exp_learn = solo[(s, i)]
                 got_out = [(pos, None if w is None else [x for x in w]) for pos, w in pt[i]]
                 exp_cmp = [(pos, None if w is None else [(i, q) for (_, q) in w]) for pos, w in exp_out]
+                # the text of a syscall / sampler record is a function of its own window: same in every interleaving
+                tx = [(src[k][1], r['texts'][k]) for k in range(len(h)) if src[k][0] == i and r['texts'][k] is not None
+                      and (uni.codes.get(h[k][1], '').startswith('BSC_') or uni.codes.get(h[k][1]) == 'PERF_THD_Data')]
+                if tx != solo_texts[(s, i)]:
+                    bad = next((a for a, b in zip(tx, solo_texts[(s, i)]) if a != b), tx[:1])
+                    ctx.failing.append({'input': {'history': h, 'thread': tids[i], 'thread_program': progs[i]},
+                                        'expected': {'texts of the solo run': solo_texts[(s, i)][:4]}, 'actual': {'texts': tx[:4], 'first difference': bad},
+                                        'why': 'per-thread traces / learned names of the merged stream differ from the solo run of that thread '
+                                               '(the text of a record of that thread changed with the interleaving)'})
+                    break
                 if got_out != exp_cmp or learn_by_tid.get(tids[i], []) != exp_learn:
                     ctx.failing.append({
                         'input': {'history': h, 'thread': tids[i], 'thread_program': progs[i]},
